@@ -25,16 +25,20 @@ func createQ4(
 	path string,
 	eds *rsmt2d.ExtendedDataSquare,
 ) error {
+	verifMark("q4.create", path, 0)
 	mod := os.O_RDWR | os.O_CREATE | os.O_EXCL // ensure we fail if already exist
 	f, err := os.OpenFile(path, mod, filePermissions)
 	if err != nil {
+		verifMark("q4.create.err", path, 0)
 		return fmt.Errorf("creating Q4 file: %w", err)
 	}
+	verifMark("q4.created", path, 0)
 
 	err = writeQ4File(f, eds)
 	if errClose := f.Close(); errClose != nil {
 		err = errors.Join(err, fmt.Errorf("closing created Q4 file: %w", errClose))
 	}
+	verifMark("q4.closed", path, 0)
 
 	return err
 }
@@ -51,6 +55,7 @@ func writeQ4File(f *os.File, eds *rsmt2d.ExtendedDataSquare) error {
 	if err := buf.Flush(); err != nil {
 		return fmt.Errorf("flushing Q4: %w", err)
 	}
+	verifMark("q4.flushed", f.Name(), 0)
 
 	return nil
 }
@@ -66,6 +71,7 @@ func writeQ4(w io.Writer, eds *rsmt2d.ExtendedDataSquare) error {
 			if err != nil {
 				return fmt.Errorf("writing share: %w", err)
 			}
+			verifMark("q4.share", "", int(i*half+j))
 		}
 	}
 	return nil
@@ -106,6 +112,7 @@ func openQ4(path string, hdr *headerV0) (*q4, error) {
 }
 
 func (q4 *q4) close() error {
+	verifMark("q4.close", q4.file.Name(), 0)
 	return q4.file.Close()
 }
 
